@@ -1135,4 +1135,396 @@ theorem visit_sound_needs_slots :
   | root h => subst hx; simp at h
   | step _ hs _ => exact absurd hs (Nat.not_lt_zero _)
 
+/-! ## 7. the repairs: a repaired guard keeps its pattern flag true -/
+
+/-- F27 repaired (element-wise guard): no nested Create ever receives a record that is registered already -/
+theorem saveBatch_cleanMixed (fx : VFix) (hf : fx.filter = true) (g : VGraph) (roots : List Nat) :
+    ∀ (fuel : Nat) (batch : List Nat) (st : VSt), st.cleanMixed = true →
+    (saveBatch fx g roots fuel batch st).cleanMixed = true := by
+  intro fuel
+  induction fuel with
+  | zero => intro _ st h; exact h
+  | succ fuel ih =>
+    intro batch st h
+    refine saveBatch_succ_inv (fun st' => st'.cleanMixed = true) fx g roots fuel batch st h ?_ (fun _ h => h)
+      (fun _ h => h)
+    intro st' s _ hP
+    unfold slotStep
+    refine saveAssoc_cases _ _ _ _ _ _ (fun r => r.cleanMixed = true) (fun _ => hP) (fun _ _ _ _ => hP) ?_
+    intro v' values _ _ _ _ _ hfresh _ _
+    apply ih
+    simp only [VSt.enter, Bool.and_eq_true, List.all_eq_true, Bool.not_eq_true', List.contains_eq_mem,
+      decide_eq_false_iff_not]
+    exact ⟨hP, hfresh hf⟩
+
+/-- F27 or F29 repaired: no nested Create ever receives a record twice -/
+theorem saveBatch_cleanDup (fx : VFix) (hf : fx.filter = true ∨ fx.distinct = true) (g : VGraph) (roots : List Nat) :
+    ∀ (fuel : Nat) (batch : List Nat) (st : VSt), st.cleanDup = true →
+    (saveBatch fx g roots fuel batch st).cleanDup = true := by
+  intro fuel
+  induction fuel with
+  | zero => intro _ st h; exact h
+  | succ fuel ih =>
+    intro batch st h
+    refine saveBatch_succ_inv (fun st' => st'.cleanDup = true) fx g roots fuel batch st h ?_ (fun _ h => h)
+      (fun _ h => h)
+    intro st' s _ hP
+    unfold slotStep
+    refine saveAssoc_cases _ _ _ _ _ _ (fun r => r.cleanDup = true) (fun _ => hP) (fun _ _ _ _ => hP) ?_
+    intro v' values _ _ _ _ _ _ hnd _
+    apply ih
+    simp only [VSt.enter, Bool.and_eq_true, nodupB_iff]
+    exact ⟨hP, hnd hf⟩
+
+/-- the operation's own value is registered in every visit map that exists -/
+def RootsIn (roots : List Nat) (st : VSt) : Prop := ∀ V, st.visited = some V → ∀ r, r ∈ roots → r ∈ V
+
+/-- F28 repaired (the map is created with the statement's own value registered; the first statement that saves an
+    association is the operation's own): no nested Create ever receives an unregistered record of the operation's value -/
+theorem saveBatch_cleanRoot (fx : VFix) (hr : fx.root = true) (g : VGraph) (roots : List Nat) :
+    ∀ (fuel : Nat) (batch : List Nat) (st : VSt), st.cleanRoot = true → RootsIn roots st →
+    (st.visited = none → batch = roots) →
+    (saveBatch fx g roots fuel batch st).cleanRoot = true ∧ RootsIn roots (saveBatch fx g roots fuel batch st) := by
+  intro fuel
+  induction fuel with
+  | zero => intro _ st h h' _; exact ⟨h, h'⟩
+  | succ fuel ih =>
+    intro batch st h hin htop
+    have main := saveBatch_succ_inv
+      (fun st' => st'.cleanRoot = true ∧ RootsIn roots st' ∧ (st'.visited = none → batch = roots))
+      fx g roots fuel batch st ⟨h, hin, htop⟩ ?_ (fun _ h => h) (fun _ h => h)
+    · exact ⟨main.1, main.2.1⟩
+    intro st' s _ ⟨hc, hri, ht⟩
+    have hbase : ∀ r, r ∈ roots → r ∈ visitBase fx.root batch st'.visited := by
+      intro r hrr
+      apply (mem_visitBase _ _ _ _).2
+      cases hv : st'.visited with
+      | none => exact Or.inr ⟨rfl, hr, by rw [ht hv]; exact hrr⟩
+      | some V => exact Or.inl (by simpa using hri V hv r hrr)
+    have hnew : ∀ v' : Option (List Nat), v'.isSome = true →
+        (∀ x, x ∈ v'.getD [] ↔ x ∈ g.group batch s st'.keyed ∨ x ∈ visitBase fx.root batch st'.visited) →
+        ∀ V, v' = some V → ∀ r, r ∈ roots → r ∈ V := by
+      intro v' _ hv' V hV r hrr
+      have := (hv' r).2 (Or.inr (hbase r hrr))
+      simpa [hV] using this
+    unfold slotStep
+    refine saveAssoc_cases _ _ _ _ _ _
+      (fun r => r.cleanRoot = true ∧ RootsIn roots r ∧ (r.visited = none → batch = roots)) ?_ ?_ ?_
+    · intro _; exact ⟨hc, hri, ht⟩
+    · intro v' hs hv' _
+      exact ⟨hc, hnew v' hs hv', fun hn => by have hn' : v' = none := hn; subst hn'; simp at hs⟩
+    · intro v' values hs hv' _ _ _ _ _ _
+      have hres := ih values (st'.enter roots (visitBase fx.root batch st'.visited) values v') ?_ (hnew v' hs hv')
+        (fun hn => by have hn' : v' = none := hn; subst hn'; simp at hs)
+      · refine ⟨hres.1, hres.2, fun hn => ?_⟩
+        have := (saveBatch_mono fx g roots fuel values
+          (st'.enter roots (visitBase fx.root batch st'.visited) values v')).2.2.2.2 (by rw [enter_visited]; exact hs)
+        simp [hn] at this
+      · simp only [VSt.enter, Bool.and_eq_true, List.all_eq_true, Bool.not_eq_true', Bool.and_eq_false_iff,
+          List.contains_eq_mem, decide_eq_false_iff_not, Bool.not_eq_false', decide_eq_true_eq]
+        refine ⟨hc, fun e _ => ?_⟩
+        by_cases her : e ∈ roots
+        · exact Or.inr (hbase e her)
+        · exact Or.inl her
+
+theorem visit_cleanMixed (fx : VFix) (hf : fx.filter = true) (g : VGraph) (roots existing : List Nat) :
+    (g.run fx roots existing).cleanMixed = true :=
+  saveBatch_cleanMixed fx hf g roots _ _ _ rfl
+
+theorem visit_cleanDup (fx : VFix) (hf : fx.filter = true ∨ fx.distinct = true) (g : VGraph)
+    (roots existing : List Nat) : (g.run fx roots existing).cleanDup = true :=
+  saveBatch_cleanDup fx hf g roots _ _ _ rfl
+
+theorem visit_cleanRoot (fx : VFix) (hr : fx.root = true) (g : VGraph) (roots existing : List Nat) :
+    (g.run fx roots existing).cleanRoot = true :=
+  (saveBatch_cleanRoot fx hr g roots _ _ _ rfl (fun V h => by simp at h) (fun _ => rfl)).1
+
+/-- each repair discharges the hypothesis about its own pattern -/
+theorem visit_clean_of_fix (fx : VFix) (g : VGraph) (roots existing : List Nat)
+    (h1 : fx.filter = false → (g.run fx roots existing).cleanMixed = true)
+    (h2 : fx.root = false → (g.run fx roots existing).cleanRoot = true)
+    (h3 : fx.filter = false → fx.distinct = false → (g.run fx roots existing).cleanDup = true) :
+    (g.run fx roots existing).clean = true := by
+  have a : (g.run fx roots existing).cleanMixed = true := by
+    cases hf : fx.filter with
+    | false => exact h1 hf
+    | true => exact visit_cleanMixed fx hf g roots existing
+  have b : (g.run fx roots existing).cleanRoot = true := by
+    cases hr : fx.root with
+    | false => exact h2 hr
+    | true => exact visit_cleanRoot fx hr g roots existing
+  have c : (g.run fx roots existing).cleanDup = true := by
+    cases hf : fx.filter with
+    | true => exact visit_cleanDup fx (Or.inl hf) g roots existing
+    | false =>
+      cases hd : fx.distinct with
+      | true => exact visit_cleanDup fx (Or.inr hd) g roots existing
+      | false => exact h3 hf hd
+  simp [VSt.clean, a, b, c]
+
+/-! ## 8. conservativity: where the unrepaired traversal is clean, every repaired traversal does exactly the same -/
+
+theorem filterSaved_fresh_some (rf : Bool) (own : List Nat) (es V : List Nat) (hnd : es.Nodup)
+    (hfresh : ∀ e, e ∈ es → e ∉ V) : (filterSaved rf own es (some V)).1 = es := by
+  induction es generalizing V with
+  | nil => rfl
+  | cons e rest ih =>
+    have he : e ∉ V := hfresh e List.mem_cons_self
+    have hnd' := List.nodup_cons.1 hnd
+    have hstep : checkSavedR rf own [e] (some V) = (false, some (e :: V)) := by
+      simp [checkSavedR, checkSaved, loadOrStore, he]
+    simp only [filterSaved, hstep, Bool.false_eq_true, if_false]
+    rw [ih (e :: V) hnd'.2]
+    intro x hx hv
+    rcases List.mem_cons.1 hv with h | h
+    · subst h; exact hnd'.1 hx
+    · exact hfresh x (List.mem_cons_of_mem _ hx) h
+
+theorem filterSaved_fresh (rf : Bool) (own es : List Nat) (v : Option (List Nat)) (hnd : es.Nodup)
+    (hfresh : ∀ e, e ∈ es → e ∉ visitBase rf own v) : (filterSaved rf own es v).1 = es := by
+  cases v with
+  | some V => exact filterSaved_fresh_some rf own es V hnd (by simpa [visitBase] using hfresh)
+  | none =>
+    cases es with
+    | nil => rfl
+    | cons e rest =>
+      have he : e ∉ visitBase rf own none := hfresh e List.mem_cons_self
+      have hnd' := List.nodup_cons.1 hnd
+      have hsome := checkSavedR_isSome rf own [e] none
+      have hmem := fun x => checkSavedR_mem rf own [e] none x
+      have hld := checkSavedR_loaded rf own [e] none (by simp)
+      cases hc : checkSavedR rf own [e] none with
+      | mk ld v1 =>
+        rw [hc] at hsome hmem hld
+        cases v1 with
+        | none => simp at hsome
+        | some V1 =>
+          replace hmem : ∀ x, x ∈ V1 ↔ x = e ∨ x ∈ visitBase rf own none := fun x => by simpa using hmem x
+          have hl : ld = false := by simpa [he] using hld
+          subst hl
+          simp only [filterSaved, hc, Bool.false_eq_true, if_false]
+          rw [filterSaved_fresh_some rf own rest V1 hnd'.2]
+          intro x hx hv
+          rcases (hmem x).1 hv with h | h
+          · subst h; exact hnd'.1 hx
+          · exact hfresh x (List.mem_cons_of_mem _ hx) h
+
+theorem saveGuard_fresh (fx : VFix) (own elems : List Nat) (v : Option (List Nat)) (hnd : elems.Nodup)
+    (hfresh : ∀ e, e ∈ elems → e ∉ visitBase fx.root own v) : (saveGuard fx own elems v).1 = elems := by
+  unfold saveGuard
+  cases fx.filter with
+  | true => simpa using filterSaved_fresh fx.root own elems v hnd hfresh
+  | false => simp
+
+/-- every record registered: the (repaired or unrepaired) guard skips the list -/
+theorem saveAssoc_skip_eq (fx : VFix) (roots own : List Nat) (rec : List Nat → VSt → VSt) (elems : List Nat)
+    (st : VSt) (hne : elems ≠ []) (hall : ∀ e, e ∈ elems → e ∈ visitBase fx.root own st.visited) :
+    ∃ v' : Option (List Nat), saveAssoc fx roots own rec elems st = { st with visited := v' } ∧ v'.isSome = true ∧
+      ∀ x, x ∈ v'.getD [] ↔ x ∈ elems ∨ x ∈ visitBase fx.root own st.visited := by
+  obtain ⟨g1, g2, _, g4, _, _⟩ := saveGuard_spec fx own elems st.visited hne
+  have hr : (saveGuard fx own elems st.visited).2.1 = true := by
+    cases h : (saveGuard fx own elems st.visited).2.1 with
+    | true => rfl
+    | false =>
+      obtain ⟨k1, _, e, he1, he2⟩ := g4 h
+      exact absurd (hall e (k1 e he1)) he2
+  refine ⟨(saveGuard fx own elems st.visited).2.2, ?_, g1, g2⟩
+  unfold saveAssoc
+  have : elems.isEmpty = false := by cases elems with | nil => exact absurd rfl hne | cons _ _ => rfl
+  simp [this, hr]
+
+/-- a repetition-free list of unregistered records: the (repaired or unrepaired) guard hands exactly that list to the
+    nested Create -/
+theorem saveAssoc_fresh_eq (fx : VFix) (roots own : List Nat) (rec : List Nat → VSt → VSt) (elems : List Nat)
+    (st : VSt) (hne : elems ≠ []) (hnd : elems.Nodup)
+    (hfresh : ∀ e, e ∈ elems → e ∉ visitBase fx.root own st.visited) :
+    ∃ v' : Option (List Nat), saveAssoc fx roots own rec elems st =
+        rec elems (st.enter roots (visitBase fx.root own st.visited) elems v') ∧ v'.isSome = true ∧
+      ∀ x, x ∈ v'.getD [] ↔ x ∈ elems ∨ x ∈ visitBase fx.root own st.visited := by
+  obtain ⟨g1, g2, g3, _, _, _⟩ := saveGuard_spec fx own elems st.visited hne
+  have hr : (saveGuard fx own elems st.visited).2.1 = false := by
+    cases h : (saveGuard fx own elems st.visited).2.1 with
+    | false => rfl
+    | true =>
+      cases elems with
+      | nil => exact absurd rfl hne
+      | cons e rest => exact absurd (g3 h e List.mem_cons_self) (hfresh e List.mem_cons_self)
+  have hv := saveGuard_fresh fx own elems st.visited hnd hfresh
+  have hd : (if fx.distinct then distinctPtr elems [] else elems) = elems := by
+    cases fx.distinct with
+    | true => simpa using distinctPtr_of_nodup elems [] hnd (by simp)
+    | false => rfl
+  refine ⟨(saveGuard fx own elems st.visited).2.2, ?_, g1, g2⟩
+  unfold saveAssoc
+  have : elems.isEmpty = false := by cases elems with | nil => exact absurd rfl hne | cons _ _ => rfl
+  simp only [this, Bool.false_eq_true, if_false, hr, hv, hd]
+
+/-- two folds in lockstep; `good` (a property of the LEFT run) is known at the end and flows backwards -/
+theorem vfoldl_sim {α σ τ : Type} (R : σ → τ → Prop) (good : σ → Prop) (f : σ → α → σ) (f' : τ → α → τ)
+    (l : List α) (hback : ∀ s a, good (f s a) → good s)
+    (hstep : ∀ s t a, a ∈ l → R s t → good (f s a) → R (f s a) (f' t a)) :
+    ∀ s t, R s t → good (l.foldl f s) → R (l.foldl f s) (l.foldl f' t) := by
+  induction l with
+  | nil => intro s t h _; exact h
+  | cons a l ih =>
+    intro s t h hg
+    simp only [List.foldl_cons] at hg ⊢
+    have hga : good (f s a) := vfoldl_back good f l hback _ hg
+    exact ih (fun s t b hb => hstep s t b (List.mem_cons_of_mem _ hb)) _ _
+      (hstep s t a List.mem_cons_self h hga) hg
+
+/-- the two visit maps hold the same records, apart from the operation's own value, which the F28 repair registers
+    when the map is created -/
+def VisSim (fx : VFix) (roots : List Nat) (vo vn : Option (List Nat)) : Prop :=
+  (vo = none ∧ vn = none) ∨
+  (∃ Vo Vn, vo = some Vo ∧ vn = some Vn ∧ ∀ x, x ∈ Vn ↔ x ∈ Vo ∨ (fx.root = true ∧ x ∈ roots))
+
+/-- unrepaired run `so`, repaired run `sn`: same events, same keys, same fuel state, corresponding visit maps -/
+def VSim (fx : VFix) (roots : List Nat) (so sn : VSt) : Prop :=
+  so.log = sn.log ∧ so.keyed = sn.keyed ∧ so.ok = sn.ok ∧ VisSim fx roots so.visited sn.visited
+
+theorem VisSim.of_mem (fx : VFix) (roots : List Nat) (vo vn : Option (List Nat)) (ho : vo.isSome = true)
+    (hn : vn.isSome = true) (h : ∀ x, x ∈ vn.getD [] ↔ x ∈ vo.getD [] ∨ (fx.root = true ∧ x ∈ roots)) :
+    VisSim fx roots vo vn := by
+  cases vo with
+  | none => simp at ho
+  | some Vo =>
+    cases vn with
+    | none => simp at hn
+    | some Vn => exact Or.inr ⟨Vo, Vn, rfl, rfl, by simpa using h⟩
+
+/-- the bases of the two guards correspond -/
+theorem VisSim.base (fx : VFix) (roots batch : List Nat) (vo vn : Option (List Nat)) (h : VisSim fx roots vo vn)
+    (htop : vo = none → batch = roots) (x : Nat) :
+    x ∈ visitBase fx.root batch vn ↔ x ∈ visitBase false batch vo ∨ (fx.root = true ∧ x ∈ roots) := by
+  rcases h with ⟨h1, h2⟩ | ⟨Vo, Vn, h1, h2, h3⟩
+  · subst h1; subst h2
+    rw [htop rfl]
+    cases fx.root <;> simp [visitBase]
+  · subst h1; subst h2
+    simpa [visitBase] using h3 x
+
+theorem saveAssoc_sim (fx : VFix) (roots batch : List Nat) (recO recN : List Nat → VSt → VSt) (elems : List Nat)
+    (so sn : VSt) (hsim : VSim fx roots so sn) (htop : so.visited = none → batch = roots)
+    (hmonoO : ∀ b st, VMono st (recO b st))
+    (hrec : ∀ values so' sn', VSim fx roots so' sn' → so'.visited.isSome = true → (recO values so').clean = true →
+      VSim fx roots (recO values so') (recN values sn'))
+    (hclean : (saveAssoc {} roots batch recO elems so).clean = true) :
+    VSim fx roots (saveAssoc {} roots batch recO elems so) (saveAssoc fx roots batch recN elems sn) := by
+  obtain ⟨hlog, hkey, hok, hvis⟩ := hsim
+  have hbase := VisSim.base fx roots batch so.visited sn.visited hvis htop
+  by_cases hE : elems = []
+  · subst hE
+    simp only [saveAssoc, List.isEmpty_nil, if_true]
+    exact ⟨hlog, hkey, hok, hvis⟩
+  revert hclean
+  refine saveAssoc_cases _ _ _ _ _ _
+    (fun r => r.clean = true → VSim fx roots r (saveAssoc fx roots batch recN elems sn)) ?_ ?_ ?_
+  · intro h; exact absurd h hE
+  · -- the unrepaired guard skipped: everything was registered, so it is for the repaired guard
+    intro v' hs hv' hall _
+    obtain ⟨w, hw1, hw2, hw3⟩ := saveAssoc_skip_eq fx roots batch recN elems sn hE
+      (fun e he => (hbase e).2 (Or.inl (hall e he)))
+    rw [hw1]
+    refine ⟨hlog, hkey, hok, VisSim.of_mem fx roots v' w hs hw2 (fun x => ?_)⟩
+    rw [hw3, hv', hbase]
+    constructor
+    · rintro (h | h | h)
+      · exact Or.inl (Or.inl h)
+      · exact Or.inl (Or.inr h)
+      · exact Or.inr h
+    · rintro ((h | h) | h)
+      · exact Or.inl h
+      · exact Or.inr (Or.inl h)
+      · exact Or.inr (Or.inr h)
+  · -- the unrepaired guard created the whole list; the run stays clean, so the list was fresh and repetition-free
+    intro v' values hs hv' _ _ _ _ _ hval hres
+    have hval' : values = elems := hval rfl rfl
+    subst hval'
+    have hc := (hmonoO _ _).clean hres
+    obtain ⟨_, hall, hnd⟩ := enter_clean _ _ _ _ _ hc
+    have hfresh : ∀ e, e ∈ values → e ∉ visitBase fx.root batch sn.visited := by
+      intro e he hb
+      rcases (hbase e).1 hb with h | ⟨_, h⟩
+      · exact (hall e he).1 h
+      · exact (hall e he).2 h
+    obtain ⟨w, hw1, hw2, hw3⟩ := saveAssoc_fresh_eq fx roots batch recN values sn hE hnd hfresh
+    rw [hw1]
+    refine hrec values _ _ ⟨hlog, hkey, hok, VisSim.of_mem fx roots v' w hs hw2 (fun x => ?_)⟩ hs hres
+    rw [hw3, hv', hbase]
+    constructor
+    · rintro (h | h | h)
+      · exact Or.inl (Or.inl h)
+      · exact Or.inl (Or.inr h)
+      · exact Or.inr h
+    · rintro ((h | h) | h)
+      · exact Or.inl h
+      · exact Or.inr (Or.inl h)
+      · exact Or.inr (Or.inr h)
+
+theorem saveBatch_sim (fx : VFix) (g : VGraph) (roots : List Nat) : ∀ (fuel : Nat) (batch : List Nat) (so sn : VSt),
+    VSim fx roots so sn → (so.visited = none → batch = roots) →
+    (saveBatch {} g roots fuel batch so).clean = true →
+    VSim fx roots (saveBatch {} g roots fuel batch so) (saveBatch fx g roots fuel batch sn) := by
+  intro fuel
+  induction fuel with
+  | zero =>
+    intro batch so sn h _ _
+    exact ⟨h.1, h.2.1, rfl, h.2.2.2⟩
+  | succ fuel ih =>
+    intro batch so sn hsim htop hclean
+    -- the relation carried through the two slot loops
+    let R : VSt → VSt → Prop := fun a b => VSim fx roots a b ∧ (a.visited = none → batch = roots)
+    have hback : ∀ (a : VSt) (s : Nat), (slotStep {} g roots fuel batch a s).clean = true → a.clean = true :=
+      fun a s h => (slotStep_mono {} g roots fuel batch a s).clean h
+    have hstep : ∀ (a b : VSt) (s : Nat), R a b → (slotStep {} g roots fuel batch a s).clean = true →
+        R (slotStep {} g roots fuel batch a s) (slotStep fx g roots fuel batch b s) := by
+      intro a b s ⟨hab, hta⟩ hc
+      refine ⟨?_, fun hn => ?_⟩
+      · unfold slotStep at hc ⊢
+        rw [← hab.2.1]
+        exact saveAssoc_sim fx roots batch _ _ _ a b hab hta (fun b st => saveBatch_mono {} g roots fuel b st)
+          (fun values so' sn' h hs hc' => ih values so' sn' h (fun hn => by simp [hn] at hs) hc') hc
+      · apply hta
+        have hm := (slotStep_mono {} g roots fuel batch a s).2.2.2.2
+        cases hv : a.visited with
+        | none => rfl
+        | some V => simp [hv, hn] at hm
+    rw [saveBatch_succ] at hclean
+    rw [saveBatch_succ, saveBatch_succ]
+    simp only [] at hclean ⊢
+    -- the clean flag known at the end flows back through the second loop to the end of the first
+    have hc4 := hclean
+    have hc3 := (slotLoop_mono {} g roots fuel batch _ _).clean hc4
+    have h1 : R { so with log := so.log ++ batch.map VEv.before } { sn with log := sn.log ++ batch.map VEv.before } :=
+      ⟨⟨by simp [hsim.1], hsim.2.1, hsim.2.2.1, hsim.2.2.2⟩, htop⟩
+    have h2 := vfoldl_sim R (fun a => a.clean = true) _ _ (List.range g.nbefore) hback
+      (fun a b s _ h hc => hstep a b s h hc) _ _ h1 hc3
+    have h3 : R { ((List.range g.nbefore).foldl (slotStep {} g roots fuel batch)
+          { so with log := so.log ++ batch.map VEv.before }) with
+          log := ((List.range g.nbefore).foldl (slotStep {} g roots fuel batch)
+            { so with log := so.log ++ batch.map VEv.before }).log ++ [VEv.stmt batch],
+          keyed := batch ++ ((List.range g.nbefore).foldl (slotStep {} g roots fuel batch)
+            { so with log := so.log ++ batch.map VEv.before }).keyed }
+        { ((List.range g.nbefore).foldl (slotStep fx g roots fuel batch)
+          { sn with log := sn.log ++ batch.map VEv.before }) with
+          log := ((List.range g.nbefore).foldl (slotStep fx g roots fuel batch)
+            { sn with log := sn.log ++ batch.map VEv.before }).log ++ [VEv.stmt batch],
+          keyed := batch ++ ((List.range g.nbefore).foldl (slotStep fx g roots fuel batch)
+            { sn with log := sn.log ++ batch.map VEv.before }).keyed } :=
+      ⟨⟨by simp [h2.1.1], by simp [h2.1.2.1], h2.1.2.2.1, h2.1.2.2.2⟩, h2.2⟩
+    have h4 := vfoldl_sim R (fun a => a.clean = true) _ _ ((List.range (g.nslots - g.nbefore)).map (· + g.nbefore))
+      hback (fun a b s _ h hc => hstep a b s h hc) _ _ h3 hc4
+    exact ⟨by simp [h4.1.1], h4.1.2.1, h4.1.2.2.1, h4.1.2.2.2⟩
+
+/-- on every graph on which the unrepaired traversal shows none of the three patterns, every repaired traversal
+    produces the SAME event log: the same nested Creates over the same record lists in the same order (hence the same
+    statements and the same table contents), the same hooks -/
+theorem visit_fix_conservative (fx : VFix) (g : VGraph) (roots existing : List Nat)
+    (hclean : (g.run {} roots existing).clean = true) :
+    (g.run fx roots existing).log = (g.run {} roots existing).log := by
+  unfold VGraph.run at hclean ⊢
+  exact (saveBatch_sim fx g roots (g.size + 1) roots { keyed := existing } { keyed := existing }
+    ⟨rfl, rfl, rfl, Or.inl ⟨rfl, rfl⟩⟩ (fun _ => rfl) hclean).1.symm
+
 end Gorm
